@@ -26,6 +26,18 @@ def find_rank_site(an: Analysis):
             if not isinstance(st, ast.If):
                 continue
             t = st.test
+            # `x = self.MAP.get(index)` ... `if x is None: x = self.MAP[index] = RANK`
+            if (isinstance(t, ast.Compare) and len(t.ops) == 1 and isinstance(t.ops[0], ast.Is) and isinstance(t.left, ast.Name)
+                    and isinstance(t.comparators[0], ast.Constant) and t.comparators[0].value is None):
+                gets = [a for a in ast.walk(f.node) if isinstance(a, ast.Assign) and len(a.targets) == 1 and isinstance(a.targets[0], ast.Name) and a.targets[0].id == t.left.id
+                        and isinstance(a.value, ast.Call) and isinstance(a.value.func, ast.Attribute) and a.value.func.attr == "get" and len(a.value.args) == 1
+                        and isinstance(a.value.func.value, ast.Attribute) and isinstance(a.value.func.value.value, ast.Name) and a.value.func.value.value.id == self_]
+                if len(gets) == 1:
+                    m = gets[0].value.func.value
+                    key = gets[0].value.args[0]
+                    for b in st.body:
+                        if isinstance(b, ast.Assign) and any(isinstance(tg_, ast.Subscript) and ast.dump(tg_.value) == ast.dump(m) and ast.dump(tg_.slice) == ast.dump(key) for tg_ in b.targets):
+                            return f, st, b, m.attr, key
             if not (isinstance(t, ast.Compare) and len(t.ops) == 1 and isinstance(t.ops[0], ast.NotIn)):
                 continue
             m = t.comparators[0]
